@@ -255,7 +255,7 @@ PROPS["C16"] = dict(
     props_files=["props/C16.v"],
     harness="C16", corr_files=["model/Library.v", "model/CorrLibrary.v"],
     theorems=["C16_unique_names", "C16_build", "C16_failed_build_unchanged", "C16_removed_from_instance",
-              "C16_only_rules_in_force", "C16_removed_from_library", "C16_removed_rules_refuted", "C16_removed_rules_partial", "C16_rebuild", "C16_frame"],
+              "C16_only_rules_in_force", "C16_removed_from_library", "C16_removed_rules", "C16_rebuild", "C16_frame"],
     trusted=LIBRARY_TRUST,
     assumptions=[
         "rule bodies are abstract (any type B, any condition semantics holds : B -> F -> bool, any iteration order of the entry map): what a rule computes is the subject of C01-C07; "
@@ -263,9 +263,13 @@ PROPS["C16"] = dict(
         "syntactically valid resources only (acceptance of texts is C17); a build is all-or-nothing (KnowledgeBase.Checkpoint / restore, engine commit 4ed034e): a rejected "
         "resource leaves every knowledge base entry, every instance and the tombstone supply as they were (C16_failed_build_unchanged, full); the one trace it can leave is "
         "the EMPTY knowledge base that GetKnowledgeBase creates for a key that did not exist before (modelled, and observed: NewKnowledgeBaseInstance then succeeds on it)",
-        "the removed RULE (its entry, renamed to a tombstone) is in force again after store+load because the Deleted flag is not stored (D8): C16_removed_rules_refuted; "
-        "C16_removed_rules_partial holds for histories that never store a knowledge base holding a removed rule (safe_history, decidable, Example safe_example_ok); "
-        "the removed NAME stays out of force across store+load without side condition (C16_removed_from_library)",
+        "store+load: the Deleted flag is not in the stream; BuildKnowledgeBase reads it off the stored rule name (isTombstoneName: 'Deleted_' + a UUID, engine commit 01c7ce8). "
+        "The model reads it off the prefix 'Deleted_' of its counter-made tombstone names. With that the removed RULE (its entry, renamed to a tombstone) stays out of force in "
+        "every reachable state, across any number of store+load round trips (C16_removed_rules, full; it also proves that store+load of a reachable knowledge base equals Clone "
+        "on the flags), and the removed NAME stays out of force until it is built again (C16_removed_from_library)",
+        "ops_user (explicit hypothesis of the theorems about histories): rule names given to the builder do not start with 'Deleted_'. This is the engine's own naming convention "
+        "for removed rules: a user rule whose name literally is a tombstone name ('Deleted_' + a well-formed UUID) WOULD be read as removed when its knowledge base is loaded, and "
+        "a UUID is assumed never to collide with a chosen name; the generated histories use the names R0..R3",
         "NewKnowledgeBaseInstance is modelled as always succeeding on an existing key; the generated histories build rejected resources whose expressions are new to the "
         "working memory (the former region D10a) and the former witnesses of D10a / D10b run first on every check as fixed regression histories that must pass",
         "one goroutine; a removal during a run is a fact method called from an action (between two passes), never concurrent with the engine's range over the entry map",
@@ -273,8 +277,8 @@ PROPS["C16"] = dict(
     explanation="Invariants of the library state machine are proved by induction over arbitrary operation histories (build / remove on library and instance / new instance / "
                 "store+load / execute, any number of keys, instances, rules): unique active names in every reachable state, exact build verdict with the existing rule left in "
                 "place, removal permanent on the instance and on all later instances (name level, also across store+load), evaluated / fired / fetched rules are rules in force "
-                "(also for a removal during the run), re-use of a removed name denotes the new rule, a rejected build changes nothing, frame. One statement is refuted by a vm_compute witness (D8) and "
-                "proved in partial form. Random histories of 3-14 operations run on the real library; after every step every key (fresh instances: Execute with listener, "
+                "(also for a removal during the run), re-use of a removed name denotes the new rule, a rejected build changes nothing, removed rules stay removed across store+load, frame - all at full "
+                "strength. Random histories of 3-14 operations run on the real library; (knowledge bases holding removed rules are stored and loaded repeatedly and the removed name is built again afterwards); after every step every key (fresh instances: Execute with listener, "
                 "FetchMatchingRules) and every live instance are probed; the model replays each history inside Coq (c16_case_diff: build verdicts, instance creation, per-cycle "
                 "evaluated sets with candidate flags, fired rule + payload written, fetched sets) and an independent shadow map in Go predicts the same observables.",
 )
@@ -414,12 +418,13 @@ MANIFEST_TEXT = {
              "rule body, live instances as own copies, tombstone renaming, the Grl duplicate test, AddRuleEntry, both RemoveRuleEntry, instance creation, store+load, the flag "
              "reading part of Execute / FetchMatchingRules with the guards regenerated from GruleEngine.go), by induction over operation histories of any length: active names "
              "are unique in every reachable state; a build is rejected exactly when a name occurs twice in the resource or exists already, and every existing entry stays in "
-             "place and a rejected build changes nothing; a removed name is out of force on that instance for ever and on every instance created later (also across store+load) until it is built again, and then "
+             "place and a rejected build changes nothing; a removed name is out of force on that instance for ever and on every instance created later, name and rule, across any number of store+load round trips, until the name is built again, and then "
              "denotes the new rule; only rules in force are evaluated, fired or fetched, also when a rule is removed during the run; operations touch only what they address. "
              "Tied to the code by random histories run on the real library and replayed by the model inside Coq (vm_compute), plus a shadow-map oracle in Go.",
-        note="Trust: Coq kernel; hand-written library model (validated by the history correspondence, not verified against Go); UUIDs modelled by a counter; harness. Partial: the "
-             "rule-level statement 'a removed rule is never in force again' is refuted in Coq for remove-store-load (D8, open known finding) and proved for histories that never "
-             "store a knowledge base holding a removed rule. The former findings D10a / D10b (a rejected resource left orphan nodes / added its acceptable rules) are fixed in the "
+        note="Trust: Coq kernel; hand-written library model (validated by the history correspondence, not verified against Go); UUIDs modelled by a counter; harness. Hypothesis of the history theorems: rule "
+             "names given to the builder do not start with 'Deleted_' (a rule literally named like a tombstone would be read as removed on load - the engine's naming convention). "
+             "No statement is refuted any more: the former finding D8 (a removed rule came back after store+load) is fixed in the engine (the flag is read off the tombstone name), "
+             "the rule-level theorem is full and its witness is a regression history that must pass. The former findings D10a / D10b (a rejected resource left orphan nodes / added its acceptable rules) are fixed in the "
              "engine; the model's build is all-or-nothing and their witnesses are regression histories that must pass. No axioms (closed under the global context).",
         technique="Rocq/Coq proof: invariants of an executable library state machine by induction over operation histories + history correspondence (vm_compute) + shadow-map oracle",
     ),
